@@ -198,7 +198,11 @@ clone_evmux(echs_const_evstrm_t s)
 	struct evmux_s *res;
 
 	if (UNLIKELY(this->s == NULL)) {
-		return NULL;
+		/* an exhausted mux, the clone is exhausted as well */
+		if (LIKELY((res = malloc(sizeof(*res))) != NULL)) {
+			*res = *this;
+		}
+		return (echs_evstrm_t)res;
 	}
 	with (size_t z = this->ns * sizeof(*this->ev) + sizeof(*this)) {
 		res = malloc(z);
